@@ -26,10 +26,10 @@ ASSUMPTIONS = [
     "only the mutators named in the property are driven (not __setitem__, __delitem__, +=, sort, reverse)",
     "a name is 'the short name made unique and identifier-safe' if it matches _?<short_name>(_?<n>)?, is an identifier, not a keyword and not an attribute of the list class",
 ]
-MUST_HIT = ["extend:gen", "extend:iter", "extend:nil", "op:append", "op:insert", "op:extend", "op:remove", "op:pop", "op:clear", "op:copy",
+MUST_HIT = ["stale-name-probe", "extend:gen", "extend:iter", "extend:nil", "op:append", "op:insert", "op:extend", "op:remove", "op:pop", "op:clear", "op:copy",
             "op:deepcopy", "op:pickle", "collision", "equal-distinct-removed", "same-object-twice"]
 
-NAMES = ["x", "x", "x_2", "y_", "class", "1a", "append", "keys", "items", "copy", "_x", "x2", "y_2"]
+NAMES = ["x", "x", "x_2", "y_", "class", "1a", "append", "keys", "items", "copy", "_x", "x2", "y_2", "0a", "007", "9"]
 
 
 @dataclass
@@ -223,6 +223,22 @@ class Interp:
                 return [self.fail("name-form", f"{where}: key {k!r} is not identifier-safe")]
             if hasattr(self.NIL, k) or hasattr(list, k):
                 return [self.fail("shadow", f"{where}: key {k!r} shadows a list attribute")]
+        # no name refers to an item that is not in the list: names seen earlier that are not names now
+        self.ever = getattr(self, "ever", set()) | set(keys)
+        for k in sorted(self.ever - set(keys)):
+            if hasattr(self.NIL, k):
+                continue
+            try:
+                g = getattr(real, k)
+            except AttributeError:
+                g = None
+            else:
+                self.classes.add("stale-name-probe")
+                return [self.fail("stale-name", f"{where}: getattr(nil, {k!r}) still yields {g!r} although no item has that name "
+                                  f"(keys={keys})")]
+            if real.get(k) is not None:
+                return [self.fail("stale-name", f"{where}: nil.get({k!r}) still yields an item (keys={keys})")]
+            self.classes.add("stale-name-probe")
         for i, m in enumerate(model):
             if real[i] is not m:
                 return [self.fail("positional", f"{where}: nil[{i}]")]
